@@ -194,6 +194,15 @@ func (g *Gen) shr(a, b Term, t types.Type) Term {
 }
 
 func (g *Gen) intBinOp(op token.Token, a, b Term, t types.Type) (Term, bool) {
+	if g.topC != nil && g.topC.MathInt && (op == token.ADD || op == token.SUB) {
+		if bt, ok := t.Underlying().(*types.Basic); ok && bt.Kind() == types.Int {
+			g.usedTrusted["machine arithmetic: + and - on int treated as mathematical (math-int) in "+shortKey(g.topC.Key)] = true
+			if op == token.ADD {
+				return tAdd(a, b), true
+			}
+			return tSub(a, b), true
+		}
+	}
 	switch op {
 	case token.ADD:
 		return wrapTo(tAdd(a, b), t), true
